@@ -258,6 +258,44 @@ theorem C19_recovery_faithful_partial (body' : Bytes) (e : Nat) (he : isEol e = 
 example : specHeaders ([49, 32, 48, 32, 111, 98, 106, 10, 60, 60, 62, 62, 10, 101, 110, 100, 111, 98, 106] ++ [10]) 0 =
     [⟨1, 0, 0⟩] := by decide
 
+/-! ## 5b. a closed-form class of files instantiating the hypothesis -/
+
+/-- files written by the reference layout: a header without `j`, then objects
+    `N G obj⏎ body ⏎endobj⏎` whose numbers are digit strings within `u32`/`u16` and whose bodies
+    contain no line that parses as a header (`Obj.WF`), then ANY tail without `j` (the cross-reference
+    section, trailer, `startxref` — intact, damaged or absent).  For every chunk size the scan
+    returns exactly the true headers at their true offsets. -/
+theorem C19_scan_exact_on_layout (hdr : Bytes) (objs : List Obj) (tail : Bytes) (k : Nat)
+    (hh : ∀ c ∈ hdr, c ≠ 106) (wf : ∀ o ∈ objs, o.WF) (ht : ∀ c ∈ tail, c ≠ 106)
+    (hb : LinesBounded CARRY_CAP (layout hdr objs ++ tail)) :
+    scanChunked k (layout hdr objs ++ tail) = trueHeaders (hdr.length + 1) objs := by
+  rw [C19_chunk_invariance_code k _ hb, scanFull_spec]
+  have e : layout hdr objs ++ tail = hdr ++ 10 :: ((objs.map objBytes).flatten ++ tail) := by
+    simp [layout]
+  rw [e, specHeaders_append_eol _ _ (by decide), specHeaders_no_j _ _ hh, specHeaders_objs objs wf,
+    specHeaders_no_j _ _ ht]
+  simp
+
+/-- hence the reconstructed table of every damaged version is the table of the true headers
+    (FULL statement at the level of the table, for this class) -/
+theorem C19_recovery_faithful_layout (hdr : Bytes) (objs : List Obj) (tail : Bytes) (k : Nat)
+    (hh : ∀ c ∈ hdr, c ≠ 106) (wf : ∀ o ∈ objs, o.WF) (ht : ∀ c ∈ tail, c ≠ 106)
+    (hb : LinesBounded CARRY_CAP (layout hdr objs ++ tail)) :
+    recoveredEntries (scanChunked k (layout hdr objs ++ tail)) =
+      recoveredEntries (trueHeaders (hdr.length + 1) objs) := by
+  rw [C19_scan_exact_on_layout hdr objs tail k hh wf ht hb]
+
+/-- a body without the byte `j` is admissible (dictionaries, arrays, numbers, most streams) -/
+theorem noHeaderLine_of_no_j (b : Bytes) (h : ∀ c ∈ b, c ≠ 106) : NoHeaderLine b :=
+  fun base => specHeaders_no_j b base h
+
+-- `1 0 obj⏎<< /Type /Catalog >>⏎endobj⏎` is in the class
+example : (⟨[49], [48], [60, 60, 32, 47, 84, 121, 112, 101, 32, 47, 67, 97, 116, 97, 108, 111, 103, 32, 62, 62]⟩ : Obj).WF :=
+  ⟨⟨by decide, by decide⟩, ⟨by decide, by decide⟩, by decide, by decide, noHeaderLine_of_no_j _ (by decide)⟩
+
+example : trueHeaders 9 [⟨[49], [48], [60, 60, 62, 62]⟩, ⟨[49, 50], [48], [40, 120, 41]⟩] =
+    [⟨1, 0, 9⟩, ⟨12, 0, 29⟩] := by decide
+
 /-! ## 6. further deviations demonstrated on the real code (known findings C19-F3, C19-F4) -/
 
 /-- `1 0 obj … endobj 3 0 obj …`: the header of object 3 follows `endobj` on the same line (valid:
